@@ -30,6 +30,8 @@ CANARIES = {
     "grinding range check": "RecVerifier_canary_stark_pow",
     "final polynomial equality": "RecVerifier_canary_stark_final",
     "trace-cap Merkle check": "RecVerifier_canary_stark_tracecap",
+    "quotient-oracle Merkle check": "RecVerifier_canary_stark_oracle1",
+    "last bit of the grinding range check (one leading zero too few enforced)": "RecVerifier_canary_stark_pow1",
 }
 MUTANTS = {
     "step_active reads the degree bits from index 0": "RecVerifier_canary_step_index_zero",
@@ -44,7 +46,7 @@ def scenarios(tier, rnd, varcfgs, classes):
     thorough = tier == "thorough"
     grind = lambda rate: {"q": 40, "pow": 10} if rate == 1 else {"q": 20, "pow": 10}
     rows = [
-        {"id": "f0", "mode": "fixed", "d": 2, "cfg": dict(rate=1, cap=4, a=2, f=3, nc=2, q=40, pow=16), "maxdb": 6, "dbs": [6], "per_class": 2,
+        {"id": "f0", "mode": "fixed", "d": 2, "cfg": dict(rate=1, cap=4, a=2, f=3, nc=2, q=42, pow=8), "maxdb": 6, "dbs": [6], "per_class": 2,
          "unsupported": [5]},      # recorded only: a shorter proof in a circuit sized for one length
         {"id": "f1", "mode": "fixed", "d": 3, "cfg": dict(rate=2, cap=3, a=3, f=2, nc=2, q=20, pow=10), "maxdb": 7, "dbs": [7], "per_class": 2},
         {"id": "v0", "mode": "var", "d": 2, "cfg": dict(VC, nc=2, **grind(1)), "maxdb": 8, "mindb": 4, "dbs": [4, 5, 6, 7, 8], "per_class": 1},
@@ -55,7 +57,12 @@ def scenarios(tier, rnd, varcfgs, classes):
     full = sorted([v for v in varcfgs if not v["unsupported"] and v["cfg"] != VC], key=lambda v: json.dumps(v, sort_keys=True))
     rnd.shuffle(partial)
     rnd.shuffle(full)
-    pick = [(partial[0], 3)] + ([(v, 2 + i % 2) for i, v in enumerate(full[:12] + partial[1:6])] if thorough else [])
+    # arity 8: lengths NOT aligned with the circuit's maximum whose last active folding step still has a Merkle sibling
+    a3 = {"rate": 2, "cap": 2, "a": 3, "f": 1, "maxdb": 8, "mindb": 3}
+    va3 = [v for v in varcfgs if v["cfg"] == a3]
+    if not va3 or va3[0]["unsupported"]:
+        raise ToolError("the model does not list the arity-8 variable-degree configuration %s as fully supported" % a3)
+    pick = [(partial[0], 3), (va3[0], 2)] + ([(v, 2 + i % 2) for i, v in enumerate(full[:12] + partial[1:6])] if thorough else [])
     for i, (v, d) in enumerate(pick):
         c = v["cfg"]
         sup = [db for db in range(c["mindb"], c["maxdb"] + 1) if db not in v["unsupported"]]
@@ -104,6 +111,10 @@ def judge(byid, res, cats, varcat, report, selftest=False):
             shape[x["id"]] = x["shape"]
             st["circuits"] += 1
             continue
+        if "length" in x:
+            if not selftest:
+                st.setdefault("length_info", {})["%s:%s" % (x["id"], x["db"])] = x["length"]
+            continue
         s = byid.get(x.get("id"))
         if x.get("unsupported_length") and selftest:
             continue
@@ -140,6 +151,17 @@ def judge(byid, res, cats, varcat, report, selftest=False):
         cl = st["classes"].setdefault(x["class"], {"n": 0, "native_reject": 0})
         cl["n"] += 1
         cl["native_reject"] += 0 if x["native"] else 1
+        base = x["class"].split(":")[0]
+        if base in ("init_path", "step_path") and not x["native"] and not x["circuit"] and "Merkle" in x["native_detail"]:
+            sib = st.setdefault("siblings", {}).setdefault("%s:%s" % (x["id"], x["db"]), {"init": set(), "step": set()})
+            rc = "last" if x["class"].endswith("@last") else "first"
+            if base == "init_path":
+                sib["init"].add((x["desc"]["oracle"], rc))
+            else:
+                sib["step"].add((x["desc"]["layer"], rc))
+        if x["class"] in ("pow_short1", "pow_exact"):
+            st.setdefault("pow_boundary", []).append({"id": x["id"], "db": x["db"], "class": x["class"], "desc": x["desc"], "native": x["native"],
+                                                      "native_detail": x["native_detail"], "circuit": x["circuit"]})
         if x["circuit"] != x["native"]:
             report("violation", "C11/disagree/%s/%s/native-%s" % (sh["mode"], x["class"], "accepts" if x["native"] else "rejects"),
                    "in-circuit acceptance (%s, %s) differs from verify_stark_proof (%s %s) for a proof of 2^%d rows" % (
@@ -231,12 +253,38 @@ def run(chk, tier):
     chk.extra["lengths_agreeing_cases"] = st["lengths"]
     chk.extra["unsupported_lengths"] = st["unsupported_lengths"]
     chk.extra["circuits"] = [x["shape"] for x in res if "shape" in x]
-    need = set(cats[2]) - {"none"}
+    need = set(cats[2]) - {"none", "pow_exact"}
     missing = sorted(c for c in need if st["classes"].get(c, {}).get("native_reject", 0) == 0)
     if missing:
         raise ToolError("vacuity: classes never exercised with a natively rejected proof: %s" % missing)
     if st["circuits"] < len(rows) or st["agree_accept"] < sum(len(r["dbs"]) for r in rows):
         raise ToolError("vacuity: %d circuits of %d, %d accepted cases, skipped %s" % (st["circuits"], len(rows), st["agree_accept"], st["skipped"][:3]))
+    pb = st.get("pow_boundary", [])
+    chk.extra["pow_boundary"] = pb[:12]
+    if not any(b["class"] == "pow_short1" and not b["native"] and "proof of work" in b["native_detail"] and not b["circuit"] for b in pb) \
+            or not any(b["class"] == "pow_exact" and b["native"] and b["circuit"] for b in pb):
+        raise ToolError("vacuity: grinding boundary classes not exercised: %s" % pb[:4])
+    # Merkle siblings: for EVERY proof length of every circuit both oracles (first and last query round) and every
+    # folding step that has a sibling; and some length that is not aligned with the circuit's maximum must have had
+    # the sibling of its LAST ACTIVE step tampered
+    sib, gaps, unaligned = st.get("siblings", {}), [], []
+    for key, info in st.get("length_info", {}).items():
+        got = sib.get(key, {"init": set(), "step": set()})
+        if info["init_siblings"] > 0:
+            gaps += ["%s: oracle %d %s round" % (key, o, rc) for o in (0, 1) for rc in ("first", "last") if (o, rc) not in got["init"]]
+        for l, n in enumerate(info["step_siblings"]):
+            if n > 0 and not any(a == l for a, _ in got["step"]):
+                gaps.append("%s: folding step %d" % (key, l))
+        sid, db = key.split(":")
+        sc_ = byid[sid]
+        if sc_["mode"] == "var" and (sc_["maxdb"] - int(db)) % sc_["cfg"]["a"] != 0 and info["layers"] >= 1:
+            last = info["layers"] - 1
+            if info["step_siblings"][last] > 0 and any(a == last for a, _ in got["step"]):
+                unaligned.append(key)
+    chk.extra["sibling_coverage"] = {k: {"init": sorted("%d/%s" % t for t in v["init"]), "step": sorted("%d/%s" % t for t in v["step"])} for k, v in sib.items()}
+    chk.extra["shorter_lengths_with_last_active_step_sibling_tampered"] = unaligned
+    if gaps or not unaligned:
+        raise ToolError("vacuity: Merkle sibling tampers missing: %s; shorter lengths whose last active step was hit: %s" % (gaps[:6], unaligned))
     var_lengths = [k for k in st["lengths"] if k.startswith("v")]
     if len(var_lengths) < 7 or any(v == 0 for v in st["lengths"].values()):
         raise ToolError("vacuity: variable-degree lengths exercised: %s" % st["lengths"])
